@@ -403,6 +403,10 @@ func runSpec(sim *simcore.Sim, sp simSpec, pre preloaded, started func(simObs)) 
 	}
 	ob.Accepted = make([]bool, len(agents))
 	ob.Accepts = make([][]obsTask, len(agents))
+	specOf := map[string]taskSpec{}
+	for _, t := range sp.Tasks {
+		specOf[t.Role] = t
+	}
 	classIdx := map[string]int{}
 	for i, r := range ob.Order {
 		for _, t := range sp.Tasks {
@@ -521,11 +525,32 @@ func runSpec(sim *simcore.Sim, sp simSpec, pre preloaded, started func(simObs)) 
 					if deployedRole[ti.TaskID.Value] != ob.Order[t.Desc] {
 						ob.Extra = append(ob.Extra, "deployment outcome maps the task to another descriptor")
 					}
-					for _, ch := range ob.Descs[t.Desc].WCh {
-						if ep, ok := bm[ch.Name]; ok {
-							if tcp, ok := ep.(channel.TcpEndpoint); ok {
-								t.Dyn = append(t.Dyn, [2]uint64{chanCode(ch.Name), tcp.Port})
+					// every endpoint of the bind map: first the channels this descriptor has according to
+					// the workflow and class the harness wrote (role binds, then class binds, a name
+					// once), in that order; then whatever else the task was given, by name
+					var names []string
+					seen := map[string]bool{}
+					if ts, ok := specOf[ob.Order[t.Desc]]; ok {
+						for _, ch := range append(append([]chn{}, ts.RBind...), ts.Class.Bind...) {
+							if !seen[ch.Name] {
+								seen[ch.Name] = true
+								names = append(names, ch.Name)
 							}
+						}
+					}
+					var others []string
+					for name := range bm {
+						if !seen[name] && !strings.HasPrefix(name, "::") {
+							others = append(others, name)
+						}
+					}
+					sort.Strings(others)
+					for _, name := range append(names, others...) {
+						switch ep := bm[name].(type) {
+						case channel.TcpEndpoint:
+							t.Dyn = append(t.Dyn, [2]uint64{chanCode(name), ep.Port})
+						case channel.IpcEndpoint:
+							t.Ipc = append(t.Ipc, chanCode(name))
 						}
 					}
 				}
